@@ -802,17 +802,22 @@ Proof.
   destruct (uz j <? uz i); rewrite uz_wrap by assumption; [now rewrite Ui|now rewrite Uj].
 Qed.
 
-Lemma math_abs_partial i : in64 i -> i <> INT64_MIN -> i <> YR_UNDEFINED -> Z.abs i <> YR_UNDEFINED ->
-  math_abs i = Some (Z.abs i).
+Lemma math_abs_exact i : in64 i -> i <> YR_UNDEFINED ->
+  math_abs i = if i =? INT64_MIN then None else Some (Z.abs i).
 Proof.
-  intros Hi Hm Ui Ua. unfold math_abs, arg_def, ret_int.
-  apply Z.eqb_neq in Hm, Ui, Ua. now rewrite Ui, Hm, Ua.
+  intros Hi Ui. unfold math_abs, arg_def, ret_int.
+  apply Z.eqb_neq in Ui. rewrite Ui. cbn [negb].
+  destruct (i =? INT64_MIN); [reflexivity|].
+  replace (Z.abs i =? YR_UNDEFINED) with false; [reflexivity|].
+  symmetry. apply Z.eqb_neq. unfold YR_UNDEFINED. lia.
 Qed.
-Lemma math_abs_refuted_lemma : exists i, in64 i /\ i <> YR_UNDEFINED /\ math_abs i <> Some (Z.abs i).
+(* the 4.5.2 function returned a negative "absolute value" *)
+Lemma math_abs_pinned_refuted_lemma : exists i, in64 i /\ i <> YR_UNDEFINED /\ math_abs_pinned i = Some INT64_MIN.
 Proof.
   exists INT64_MIN. repeat split; try (unfold in64, INT64_MIN, INT64_MAX, YR_UNDEFINED; lia).
-  vm_compute. discriminate.
 Qed.
+Example ex_abs : math_abs (-5) = Some 5 /\ math_abs INT64_MIN = None /\ math_abs INT64_MAX = Some INT64_MAX.
+Proof. repeat split. Qed.
 
 (* ================================================================== 9. refutations of the unrestricted statements,
    and non-vacuity examples *)
